@@ -30,8 +30,8 @@ type HProg struct {
 	ID     string          `json:"id"`
 	Side   string          `json:"side"`
 	Header string          `json:"header"`
-	Pre    string          `json:"pre"` // hex
-	Suf    string          `json:"suf"` // hex
+	Pre    string          `json:"pre"`  // hex
+	Suf    string          `json:"suf"`  // hex
 	Stem   []int           `json:"stem"` // class indices (1-based)
 	Ext    int             `json:"ext"`
 	Reps   [][]string      `json:"reps"` // per class: representatives (hex)
